@@ -55,6 +55,13 @@ def gen_inputs(r):
         "em": {},
         "m": r.choice([{"b": 2}, {"x": {"y": 1}, "z": [1]}, {"a": 1, "b": {"c": {"d": "deep"}}}, {"labels": {"q": "r"}}]),
         "deep": {"a": {"b": {"c": gen_scalar(r)}}, "k": gen_scalar(r)},
+        # arguments for koreo's own CEL functions: nested lists with >= 2 non-empty members, maps to overlay
+        "ll": r.choice([[[1, 2], [3]], [["a", "b"], ["c"], []], [[{"k": 1}], [2, 3], [None]], [[1.5], [[2]], ["x", "y"]]]),
+        "m2": r.choice([{"b": {"c": 3}, "x": None}, {"x": {"q": [2]}, "new": "v"}, {"labels": {}, "a": {"deep": {"k": 1}}}]),
+        "obj": {"apiVersion": "g.example/v1", "kind": "Thing", "metadata": {"name": "o1", "namespace": "ons"},
+                "status": {"conditions": [{"type": "Ready", "reason": "UpToDate", "status": "True"}]}},
+        "ref": {"apiVersion": "g.example/v1", "kind": "Thing", "name": "o1", "namespace": "ons"},
+        "teams": [{"name": "core", "members": ["ann", "bob"]}, {"name": "infra", "members": ["cy"]}],
         "name": r.choice(["obj-1", "widget-x", "n"]),
         "ns": r.choice(["ns1", "team-a"]),
         "tname": "tmpl",
@@ -80,11 +87,29 @@ def input_paths(inputs, prefix="inputs", depth=3):
 class Ctx:
     """what expressions may be written at a leaf: paths that exist in the activation"""
 
-    def __init__(self, paths):
+    def __init__(self, paths, fexprs=()):
         self.paths = paths
+        self.fexprs = list(fexprs)      # calls of koreo's CEL functions that are valid in this activation
 
     def expr(self, r):
+        if self.fexprs and r.random() < 0.15:
+            return r.choice(self.fexprs)
         return "=" + ".".join(r.choice(self.paths))
+
+
+# koreo's custom functions over input-derived values (value-checked: model and reference know them)
+FEXPR_INPUTS = ["=inputs.ll.flatten()", "=inputs.m.overlay(inputs.m2)", "=inputs.m2.overlay(inputs.m)",
+                "=inputs.obj.overlay(inputs.m2)", "=inputs.deep.overlay(inputs.obj)"]
+FEXPR_RESOURCE = ["=resource.overlay(inputs.m2)", "=resource.overlay(inputs.m)"]
+# purity-only probes (value not checked; an evaluation error just drops the probe)
+FN_PURITY = ["=to_ref(inputs.ref)", "=self_ref(inputs.obj)", "=group_ref(inputs.ref)", "=kindless_ref(inputs.ref)",
+             "=config_connect_ready(inputs.obj)", "=to_json(inputs.m)", "=to_json(inputs.ll)",
+             "=inputs.teams.map(t, t.members).flatten()", "=inputs.ll.flatten()", "=inputs.ll.flatten().size()",
+             "=[inputs.ll[0], inputs.ll[1]].flatten()", "=inputs.obj.overlay(inputs.m2)",
+             "=inputs.m.overlay({'k': inputs.ll})", "=from_json(to_json(inputs.ll))", "=inputs.ll.map(x, x.size())",
+             "=inputs.teams.filter(t, t.members.size() > 1)", "=inputs.l + inputs.ll", "=inputs.ll[0] + inputs.ll[1]",
+             "=inputs.teams.map(t, t.members).flatten().map(m, m.lower())", "=b64encode(to_json(inputs.m2))",
+             "=inputs.m.overlay(inputs.m2).overlay(inputs.obj)", "={'a': inputs.ll}.a.flatten()"]
 
 
 def gen_list(r, ctx, depth=2):
@@ -166,12 +191,27 @@ class BadCase(Exception):
 def ref_eval(v, env):
     """a written value: "=a.b.c" is a path into the activation; lists/maps element-wise"""
     if isinstance(v, str) and v.startswith("="):
-        cur = env
-        for p in v.lstrip("=").split("."):
-            if not isinstance(cur, dict) or p not in cur:
-                raise BadCase(f"dangling path {v}")
-            cur = cur[p]
-        return copy.deepcopy(cur)
+        def path(text):
+            cur = env
+            for p in text.split("."):
+                if not isinstance(cur, dict) or p not in cur:
+                    raise BadCase(f"dangling path {v}")
+                cur = cur[p]
+            return copy.deepcopy(cur)
+
+        e = v.lstrip("=")
+        if e.endswith(".flatten()"):            # koreo's flatten(): members of the nested lists, in order
+            xs = path(e[:-len(".flatten()")])
+            if not isinstance(xs, list):
+                raise BadCase(f"flatten of a non-list {v}")
+            return [y for x in xs if isinstance(x, list) for y in x]
+        if ".overlay(" in e:                    # koreo's overlay(): field-by-field deep overlay
+            left, arg = e.split(".overlay(", 1)
+            a, b = path(left), path(arg[:-1])
+            if not (isinstance(a, dict) and isinstance(b, dict)):
+                raise BadCase(f"overlay of non-maps {v}")
+            return ref_deep_overlay(a, b)
+        return path(e)
     if isinstance(v, list):
         return [ref_eval(x, env) for x in v]
     if isinstance(v, dict):
@@ -225,8 +265,22 @@ def ref_forced(prog, inputs):
     return {"apiVersion": prog["api"]["apiVersion"], "kind": prog["api"]["kind"], "metadata": md}
 
 
+def ref_skip(expr, env):
+    """True / False, or "fail" when the skipIf does not evaluate to a boolean"""
+    if expr is None:
+        return False
+    try:
+        v = ref_eval(expr, env)
+    except BadCase:
+        return "fail"
+    return v if isinstance(v, bool) else "fail"
+
+
 def ref_program(prog):
-    """(target, create view) of a program, by plain deep merges in listed order"""
+    """(target, create view, undecidable) of a program, by plain deep merges in listed order.
+    `undecidable`: some skipIf is not a boolean — the real code must then give PermFail and no
+    request; target/view are then computed with that step APPLIED (an overlay whose skipIf is not
+    `true` may not vanish)"""
     inputs = prog["inputs"]
     env = {"inputs": inputs}
     env["locals"] = ref_eval(prog["locals"], {"inputs": inputs}) if prog.get("locals") else {}
@@ -234,8 +288,12 @@ def ref_program(prog):
     tmpl = prog["template"]
     base = ref_eval(tmpl["doc"], env) if tmpl["kind"] == "inline" else copy.deepcopy(tmpl["doc"])
     cur = ref_deep_overlay(base, forced)
+    undecidable = False
     for st in prog["overlays"]:
-        if st.get("skipIf") is not None and ref_eval(st["skipIf"], env) is True:
+        sk = ref_skip(st.get("skipIf"), env)
+        if sk == "fail":
+            undecidable = True
+        if sk is True:
             continue
         if st["kind"] == "inline":
             cur = ref_merge(cur, st["overlay"], ref_overlay_env(env, cur))
@@ -249,7 +307,7 @@ def ref_program(prog):
     if prog.get("create"):
         view = ref_merge(target, prog["create"], ref_overlay_env(env, target))
     view = ref_deep_overlay(view, forced)
-    return target, view
+    return target, view, undecidable
 
 
 # --------------------------------------------------------------------------- snapshots (purity)
@@ -443,6 +501,43 @@ class Impl:
             out["error"] = f"raised {type(e).__name__}: {str(e)[:200]}"
         return out
 
+    # -- ONE prepared ValueFunction over several (inputs, base) pairs
+    def vfseq(self, case):
+        from koreo.result import is_unwrapped_ok
+        from koreo.value_function.reconcile import reconcile_value_function
+        from koreo.value_function.structure import ValueFunction
+
+        celpy, ku = self.celpy, self.ku
+        out = {"results": [], "error": None, "impure": []}
+        ku.reset()
+
+        async def go():
+            spec = {k: copy.deepcopy(v) for k, v in case["vf"].items() if v is not None}
+            fn = await ku.offer_value_function("vf", spec)
+            if not isinstance(fn, ValueFunction):
+                out["error"] = f"prepare_value_function: {getattr(fn, 'message', fn)!r}"
+                return
+            args = [(celpy.json_to_cel(c["inputs"]), None if c["base"] is None else celpy.json_to_cel(c["base"]))
+                    for c in case["calls"]]
+            before, _ = snapshot(args, fn)
+            for i, (inputs, base) in enumerate(args):
+                res = await reconcile_value_function("c12", fn, inputs, base)
+                if not is_unwrapped_ok(res):
+                    out["error"] = f"call {i}: reconcile_value_function: {type(res).__name__} {res.message}"
+                    return
+                out["results"].append(ku.plain(res))
+            after, _ = snapshot(args, fn)
+            if before[0] != after[0]:
+                out["impure"].append("inputs/base of some call modified by reconcile_value_function")
+            if before[1] != after[1]:
+                out["impure"].append("prepared ValueFunction modified by reconcile_value_function")
+
+        try:
+            ku.run(go())
+        except Exception as e:
+            out["error"] = f"raised {type(e).__name__}: {str(e)[:200]}"
+        return out
+
     # -- end to end
     def program(self, prog):
         """-> dict(body=… | None, method, error, impure)"""
@@ -455,7 +550,7 @@ class Impl:
         from koreo.value_function.structure import ValueFunction
 
         celpy, ku = self.celpy, self.ku
-        out = {"body": None, "method": None, "error": None, "impure": [], "alias": False}
+        out = {"body": None, "method": None, "error": None, "impure": [], "alias": False, "permfail": False}
         ku.reset()
         api = prog["api"]
         spec = program_spec(prog)
@@ -489,6 +584,7 @@ class Impl:
             cached_tmpl = cache.get_resource_from_cache(resource_class=ResourceTemplate, cache_key="tmpl") if tmpl else None
             before, keep = snapshot(inputs, cached_tmpl, fn, vfs)
             bodies = []
+            refused = 0
             for _ in range(2):
                 cl = Cluster()
                 if prog["mode"] == "patch":
@@ -498,6 +594,10 @@ class Impl:
                 res = await reconcile_resource_function(api=cl, location="c12", function=fn, owner=owner, inputs=inputs)
                 muts = cl.mutations()
                 want = "POST" if prog["mode"] == "create" else "PATCH"
+                if not muts and ku.outcome_class(res.outcome) == "permFail":
+                    refused += 1           # no target was materialised
+                    out["permfail_message"] = str(res.outcome.message)[:200]
+                    continue
                 if len(muts) != 1 or muts[0]["method"] != want:
                     o = res.outcome
                     out["error"] = (f"expected one {want}, saw {[m['method'] for m in muts]}; outcome "
@@ -513,6 +613,12 @@ class Impl:
                 out["impure"].append("cached ResourceTemplate no longer equals its definition")
             if ku.plain(inputs) != prog["inputs"]:
                 out["impure"].append("inputs no longer equal what was passed")
+            if refused == 2:
+                out["permfail"] = True
+                return
+            if refused:
+                out["impure"].append("one reconcile gave PermFail and the other, with equal inputs, a request")
+                return
             b0, b1 = (strip_body(m["body"], prog["owned"], LAST_APPLIED_ANNOTATION) for m in bodies)
             if canon_unordered(b0) != canon_unordered(b1):
                 out["impure"].append("second reconcile with equal inputs sent a different body")
@@ -604,8 +710,61 @@ def gen_unit(r):
     depth = r.choice([1, 2, 2, 3, 3, 4, 5, 6])
     base = gen_doc(r, r.choice([0, 1, 2, 3, 4, 5]))
     paths = input_paths(inputs) + [["resource", k] for k in base if k.isidentifier()]
-    spec = gen_overlay(r, depth, Ctx(paths), base)
+    spec = gen_overlay(r, depth, Ctx(paths, FEXPR_INPUTS + FEXPR_RESOURCE), base)
     return {"base": base, "spec": spec, "inputs": inputs}
+
+
+def gen_fn_probe(r):
+    """purity-only: koreo's CEL functions (and a few comprehensions) over input-derived lists/maps"""
+    inputs = gen_inputs(r)
+    spec = {f"v{i}": e for i, e in enumerate(r.sample(FN_PURITY, r.choice([1, 2, 3])))}
+    return {"base": {}, "spec": spec, "inputs": inputs, "purity_only": True}
+
+
+def mutate_doc(r, doc, i):
+    """a different base with the same top-level keys (so `resource.<key>` stays valid) plus/minus extras"""
+    d = copy.deepcopy(doc)
+    for k in list(d):
+        x = r.random()
+        if x < 0.3:
+            d[k] = gen_scalar(r)
+        elif x < 0.45:
+            d[k] = gen_doc(r, 2)
+    d[f"extra{i}"] = gen_scalar(r)
+    return d
+
+
+def gen_vfseq(r):
+    """ONE prepared ValueFunction evaluated over several (inputs, base) pairs in one process —
+    equal inputs over different bases included (a shared overlayRef; with and without a base)"""
+    inputs_a = gen_inputs(r)
+    inputs_b = copy.deepcopy(inputs_a)
+    inputs_b["s"] = inputs_a["s"] + "-b"          # same shape (every path stays valid), other values
+    inputs_b["n"] = inputs_a["n"] + 1
+    inputs_b["l"] = ["only", "in-b"]
+    with_nobase = r.random() < 0.4
+    core = gen_doc(r, r.choice([1, 2, 3]))
+    if not core:
+        core = {"a": {"b": 1}}
+    paths = input_paths(inputs_a)
+    fex = list(FEXPR_INPUTS)
+    locals_ = None
+    if r.random() < 0.5:
+        locals_ = {f"l{i}": gen_leaf(r, Ctx(paths)) for i in range(r.choice([1, 2]))}
+        paths = paths + [["locals", k] for k in locals_]
+    if not with_nobase:
+        paths = paths + [["resource", k] for k in core if k.isidentifier()]
+        fex += FEXPR_RESOURCE
+    ret = gen_overlay(r, r.choice([1, 2, 3, 4]), Ctx(paths, fex), core)
+    bases = [core] + [mutate_doc(r, core, i) for i in range(3)]
+    if with_nobase:
+        bases += [None, {}]
+    calls = []
+    for i in range(r.choice([2, 3, 4, 5])):
+        # mostly the same inputs again, over another base
+        inp = inputs_a if (i == 0 or r.random() < 0.7) else inputs_b
+        calls.append({"inputs": copy.deepcopy(inp), "base": copy.deepcopy(r.choice(bases))})
+    return {"vf": {"locals": locals_, "return": ret}, "calls": calls}
 
 
 def gen_vf_case(r):
@@ -623,9 +782,14 @@ def gen_vf_case(r):
         paths = paths + [["locals", k] for k in locals_]
     if base is not None:      # `resource` is bound at the return overlay whenever a base is passed
         paths = paths + [["resource", k] for k in base if k.isidentifier()]
-    ret = gen_overlay(r, r.choice([1, 2, 3, 4, 5, 6]), Ctx(paths), base or {})
+    ret = gen_overlay(r, r.choice([1, 2, 3, 4, 5, 6]), Ctx(paths, FEXPR_INPUTS), base or {})
     return {"vf": {"locals": locals_, "return": ret}, "inputs": inputs, "base": base}
 
+
+# skipIf expressions that do NOT evaluate to a boolean for the generated inputs (absent key, string, int,
+# list; `inputs.deep.k` is a random scalar — sometimes a bool, then it decides normally)
+SKIP_UNDECIDABLE = ["=inputs.missing", "=inputs.em.nokey", "=inputs.flags.skipMonitoring", "=inputs.s", "=inputs.n",
+                    "=inputs.l", "=inputs.deep.k", "=inputs.m"]
 
 IDENTITY_ATTACKS = [
     {"metadata": {"name": "evil"}}, {"metadata": {"namespace": "kube-system"}}, {"kind": "Secret"},
@@ -645,7 +809,7 @@ def gen_program(r):
     if r.random() < 0.4:
         prog["locals"] = {f"r{i}": gen_leaf(r, Ctx(paths)) for i in range(r.choice([1, 2]))}
         paths = paths + [["locals", k] for k in prog["locals"]]
-    ctx = Ctx(paths)
+    ctx = Ctx(paths, FEXPR_INPUTS)
     doc_keys = [k for k in KEYS if k not in ("",)]
     if r.random() < 0.5:
         doc = gen_doc(r, r.choice([1, 2, 3, 4]), ctx, keys=doc_keys + ["metadata"])
@@ -664,15 +828,26 @@ def gen_program(r):
     env = {"inputs": inputs, "locals": ref_eval(prog["locals"], {"inputs": inputs}) if prog["locals"] else {}}
     forced = ref_forced(prog, inputs)
     cur = ref_deep_overlay(ref_eval(doc, env) if prog["template"]["kind"] == "inline" else doc, forced)
-    for i in range(r.choice([0, 1, 1, 2, 2, 3, 4])):
+    n_steps = r.choice([0, 1, 1, 2, 2, 3, 4])
+    bad_skip_at = r.randrange(n_steps) if n_steps and r.random() < 0.15 else None
+    for i in range(n_steps):
         skip = r.choice([None, None, "=inputs.t", "=inputs.ff", "=inputs.b"])
+        if i == bad_skip_at:
+            skip = r.choice(SKIP_UNDECIDABLE)
         res_paths = [["resource", k] for k in cur if k.isidentifier()] + [["resource", "metadata", "name"]]
+        earlier_vf = [x for x in prog["overlays"] if x["kind"] == "vf"]
+        new_vf = None
         if r.random() < 0.6:
             ov = (copy.deepcopy(r.choice(IDENTITY_ATTACKS)) if r.random() < 0.25
-                  else gen_overlay(r, r.choice([1, 2, 3, 4, 5, 6]), Ctx(paths + res_paths), cur))
+                  else gen_overlay(r, r.choice([1, 2, 3, 4, 5, 6]),
+                                   Ctx(paths + res_paths, FEXPR_INPUTS + FEXPR_RESOURCE), cur))
             st = {"kind": "inline", "skipIf": skip, "overlay": ov}
+        elif earlier_vf and r.random() < 0.4:
+            # the same ValueFunction again with the same overlay inputs, over the base as it is by now
+            e = r.choice(earlier_vf)
+            st = {"kind": "vf", "skipIf": skip, "ref": e["ref"], "inputs": copy.deepcopy(e["inputs"])}
         else:
-            name = f"vf{i}"
+            name = new_vf = f"vf{i}"
             sin = None
             vpaths = []
             if r.random() < 0.8:
@@ -687,7 +862,7 @@ def gen_program(r):
             prog["vfs"][name] = {"locals": vloc, "return": ret}
             st = {"kind": "vf", "skipIf": skip, "ref": name, "inputs": sin}
         prog["overlays"].append(st)
-        if not (skip is not None and ref_eval(skip, env) is True):
+        if ref_skip(skip, env) is not True:
             try:
                 if st["kind"] == "inline":
                     cur = ref_merge(cur, st["overlay"], ref_overlay_env(env, cur))
@@ -695,7 +870,8 @@ def gen_program(r):
                     cur = ref_vf(prog["vfs"][st["ref"]], ref_eval(st["inputs"], env) if st.get("inputs") else None, cur)
             except BadCase:
                 prog["overlays"].pop()
-                prog["vfs"].pop(st.get("ref"), None)
+                if new_vf:
+                    prog["vfs"].pop(new_vf, None)
     if prog["mode"] == "create" and r.random() < 0.3:
         cur2 = ref_deep_overlay(cur, forced) if prog["overlays"] else cur
         res_paths = [["resource", k] for k in cur2 if k.isidentifier()]
@@ -760,6 +936,8 @@ def req_program(prog):
 
 def oracle_unit(case, got):
     """what is wrong with the implementation's answer on this case (None = nothing)"""
+    if case.get("purity_only"):      # value not judged; a probe that does not evaluate is no test input
+        return "; ".join(got["impure"]) if (got["impure"] and not got["error"]) else None
     try:
         env = {"inputs": case["inputs"]}
         want = ref_merge(case["base"], case["spec"], ref_overlay_env(env, case["base"]))
@@ -797,7 +975,7 @@ def oracle_program(prog, got):
     if prog["mode"] == "patch" and prog["template"]["doc"].get("zz-marker") != "m":
         return None          # (a shrunk case) nothing guarantees a PATCH: not a test input
     try:
-        target, view = ref_program(prog)
+        target, view, undecidable = ref_program(prog)
     except BadCase:
         return None
     if got["error"]:
@@ -805,9 +983,37 @@ def oracle_program(prog, got):
     if got["impure"]:
         return "; ".join(got["impure"])
     want = view if prog["mode"] == "create" else target
+    if undecidable:
+        # some skipIf is not a boolean: no target may be materialised (PermFail, no request) — or, at the
+        # very least, the overlay is applied; it may not vanish
+        if got["permfail"]:
+            return None
+        w, b = norm_expected(want, got["body"])
+        if canon_unordered(b) != canon_unordered(w):
+            return (f"an overlay whose skipIf did not evaluate to a boolean vanished: {got['method']} sent, "
+                    "body is not base + every overlay whose skipIf is not true")
+        return None
+    if got["permfail"]:
+        return f"PermFail and no request although every expression evaluates: {got.get('permfail_message')!r}"
     w, b = norm_expected(want, got["body"])
     if canon_unordered(b) != canon_unordered(w):
         return f"{got['method']} body is not base + forced overlay + non-skipped overlays in order + forced overlay"
+    return None
+
+
+def oracle_vfseq(case, got):
+    try:
+        wants = [ref_vf(case["vf"], call["inputs"], call["base"]) for call in case["calls"]]
+    except BadCase:
+        return None
+    if got["error"]:
+        return got["error"]
+    if got["impure"]:
+        return "; ".join(got["impure"])
+    for i, (want, res) in enumerate(zip(wants, got["results"])):
+        if canon_unordered(res) != canon_unordered(want):
+            return (f"call {i} of the same prepared ValueFunction: result is not the deep merge of `return` into "
+                    "THIS call's base")
     return None
 
 
@@ -937,11 +1143,35 @@ def run_case(kind, case, impl):
     if kind == "vf":
         got = impl.vf(case)
         return got, oracle_vf(case, got)
+    if kind == "vfseq":
+        got = impl.vfseq(case)
+        return got, oracle_vfseq(case, got)
     got = impl.program(case)
     return got, oracle_program(case, got)
 
 
-SHRINKERS = {"unit": shrink_unit, "vf": shrink_vf, "program": shrink_program}
+def shrink_vfseq(case, impl):
+    cat = category(oracle_vfseq(case, impl.vfseq(case)))
+
+    def bad(c):
+        return category(oracle_vfseq(c, impl.vfseq(c))) == cat
+
+    c = copy.deepcopy(case)
+    if len(c["calls"]) > 2:
+        c["calls"] = common.ddmin(c["calls"], lambda sub: bad({**c, "calls": sub}))
+    c["vf"]["return"] = shrink_doc(c["vf"]["return"], lambda s: bad({**c, "vf": {**c["vf"], "return": s}}),
+                                   keep_nonempty=True, budget=25)
+    for i, call in enumerate(c["calls"]):
+        if call["base"]:
+            def with_base(b, i=i):
+                q = copy.deepcopy(c)
+                q["calls"][i]["base"] = b
+                return q
+            call["base"] = shrink_doc(call["base"], lambda b: bad(with_base(b)), budget=10)
+    return c
+
+
+SHRINKERS = {"unit": shrink_unit, "vf": shrink_vf, "vfseq": shrink_vfseq, "program": shrink_program}
 
 
 def report(ck, kind, case, impl, bad, budget):
@@ -981,6 +1211,10 @@ def explore(ck, impl, drv, n_unit, n_vf, n_prog, n_ov, salt="", model=True):
     vfs = [gen_vf_case(r) for _ in range(n_vf)]
     r = rng("c12-prog" + salt)
     progs = [gen_program(r) for _ in range(n_prog)]
+    r = rng("c12-vfseq" + salt)
+    seqs = [gen_vfseq(r) for _ in range(max(1, n_vf // 2))]
+    r = rng("c12-fn" + salt)
+    probes = [gen_fn_probe(r) for _ in range(max(1, n_unit // 20))]
     r = rng("c12-ov" + salt)
     ovs = []
     for _ in range(n_ov):
@@ -993,6 +1227,7 @@ def explore(ck, impl, drv, n_unit, n_vf, n_prog, n_ov, salt="", model=True):
         reqs += [req_unit(c) for c in units] + [req_index(c) for c in units] + [req_vf(c) for c in vfs]
         reqs += [req_program(p) for p in progs]
         reqs += [{"op": "overlay", "resource": to_wire(a), "overlay": to_wire(b)} for a, b in ovs]
+        reqs += [req_vf({"vf": q["vf"], **c}) for q in seqs for c in q["calls"]]
     try:
         answers = drv.ask(reqs) if model else []
     except Infra:
@@ -1008,6 +1243,7 @@ def explore(ck, impl, drv, n_unit, n_vf, n_prog, n_ov, salt="", model=True):
     ans_vf = [next(it) for _ in vfs] if model else [None] * len(vfs)
     ans_prog = [next(it) for _ in progs] if model else [None] * len(progs)
     ans_ov = [next(it) for _ in ovs] if model else [None] * len(ovs)
+    ans_seq = [[next(it) for _ in q["calls"]] if model else [None] * len(q["calls"]) for q in seqs]
 
     def model_err(a):
         return isinstance(a, dict) and "error" in a
@@ -1076,6 +1312,37 @@ def explore(ck, impl, drv, n_unit, n_vf, n_prog, n_ov, salt="", model=True):
             elif canon_unordered(common.from_wire(a["result"])) != canon_unordered(got["result"]):
                 ck.disagree({"kind": "vf", "case": case}, a["result"], to_wire(got["result"]), "value-function-return")
 
+    # ---- one prepared ValueFunction, several (inputs, base) pairs in one process
+    for case, answers_ in zip(seqs, ans_seq):
+        ck.evaluated()
+        got, bad = run_case("vfseq", case, impl)
+        ck.count(f"vfseq-calls:{len(case['calls'])}")
+        pairs = [(canon_unordered(c["inputs"]), canon_unordered(c["base"]) if c["base"] is not None else None)
+                 for c in case["calls"]]
+        if any(a[0] == b[0] and a[1] != b[1] for a, b in zip(pairs, pairs[1:])):
+            ck.count("vfseq-equal-inputs-different-base-consecutive")
+            ck.nontriv("vfseq" + json.dumps(pairs))
+        ck.sample({"kind": "vfseq", "vf": case["vf"], "bases": [c["base"] for c in case["calls"]]}, limit=6)
+        if bad:
+            report(ck, "vfseq", case, impl, bad, budget)
+        if not got["error"]:
+            for i, (a, res) in enumerate(zip(answers_, got["results"])):
+                if a is None:
+                    continue
+                if model_err(a):
+                    ck.disagree({"kind": "vfseq", "case": case, "call": i}, a, None, "model-driver-error")
+                elif canon_unordered(common.from_wire(a["result"])) != canon_unordered(res):
+                    ck.disagree({"kind": "vfseq", "case": case, "call": i}, a["result"], to_wire(res),
+                                "value-function-return-shared-function")
+
+    # ---- purity probes: koreo's CEL functions over input-derived lists and maps
+    for case in probes:
+        ck.evaluated()
+        got, bad = run_case("unit", case, impl)
+        ck.count("fn-probe" + (":not-evaluable" if got["error"] else ""))
+        if bad:
+            report(ck, "unit", case, impl, bad, budget)
+
     # ---- end to end
     for prog, a in zip(progs, ans_prog):
         ck.evaluated()
@@ -1084,13 +1351,18 @@ def explore(ck, impl, drv, n_unit, n_vf, n_prog, n_ov, salt="", model=True):
         ck.count(f"program-template:{prog['template']['kind']}")
         ck.count(f"program-overlays:{len(prog['overlays'])}")
         for st in prog["overlays"]:
-            ck.count(f"step:{st['kind']}:skipIf={'none' if st.get('skipIf') is None else ref_eval(st['skipIf'], {'inputs': prog['inputs']})}")
+            ck.count(f"step:{st['kind']}:skipIf={'none' if st.get('skipIf') is None else ref_skip(st['skipIf'], {'inputs': prog['inputs']})}")
+        refs = [st["ref"] for st in prog["overlays"] if st["kind"] == "vf"]
+        if len(refs) != len(set(refs)):
+            ck.count("program-same-vf-referenced-twice")
+        if got.get("permfail"):
+            ck.count("program-permfail-no-request")
         if prog.get("create"):
             ck.count("program-create-overlay")
         if prog["owned"]:
             ck.count("program-owned")
         env = {"inputs": prog["inputs"]}
-        n_active = sum(1 for st in prog["overlays"] if not (st.get("skipIf") is not None and ref_eval(st["skipIf"], env) is True))
+        n_active = sum(1 for st in prog["overlays"] if ref_skip(st.get("skipIf"), env) is not True)
         if n_active >= 2:
             ck.nontriv("prog" + json.dumps(program_spec(prog), sort_keys=True, default=str))
         ck.sample({"kind": "program", "spec": program_spec(prog), "mode": prog["mode"]}, limit=5)
@@ -1099,6 +1371,11 @@ def explore(ck, impl, drv, n_unit, n_vf, n_prog, n_ov, salt="", model=True):
         if a is not None and not got["error"]:
             if model_err(a):
                 ck.disagree({"kind": "program", "case": prog}, a, None, "model-driver-error")
+                continue
+            if a.get("fail") or got.get("permfail"):
+                if bool(a.get("fail")) != bool(got.get("permfail")):
+                    ck.disagree({"kind": "program", "case": prog}, a if a.get("fail") else "target",
+                                "permfail" if got.get("permfail") else "request", "no-target-iff-undecidable-skipIf")
                 continue
             m = common.from_wire(a["create"] if prog["mode"] == "create" else a["target"])
             w, b = norm_expected(m, got["body"])
